@@ -98,6 +98,9 @@ class LiteralToken(RegexpBaseToken):
                 real_value = float(f'{self.value[2]}.{self.value[5] or 0}e{self.value[7] or 0}')
             else:
                 real_value = int(self.value[2])
+                if real_value > 2 ** 53:
+                    # Excel keeps every number as a double: a whole number beyond 2**53 is the nearest double as well
+                    real_value = float(self.value[2])
             real_value = str(real_value)
         elif self.value[1] or self.value[0] == '""':
             # repr() escapes quotes, backslashes and line breaks: the text stays a string literal in the generated code
